@@ -16,12 +16,19 @@ from pbt.harness import Task, ok, violation, discard, xt_call
 
 PID = "C15"
 RULE = ("method in {trapz, simpson, cspline x bc} x non-uniform grid (2..40 points, odd and even, spacing ratio <=100) x y of rank 1..4 "
-        "with the integration axis at any position (positive or negative dim) x keepdim x dtype; relations: value vs reference, "
+        "with the integration axis at any position (positive or negative dim) x keepdim x dtype x unit of x in {1, 1e-8, 1e-4, 1e3, 1e5, 1e6} "
+        "(both dtypes; the grid is the same numbers times the unit) x unit of y in {1, 1e-5, 1e3} x documented defaults spelled explicitly / as None / "
+        "omitted (method None or omitted == cspline with the REQUESTED bc_type, bc_type omitted == natural); relation 'units': cumsum on 2^k*x == 2^k*cumsum on x; relations: value vs reference, "
         "cumsum[0]==0, cumsum[-1]==integrate, linearity, wrong length rejected. Non-trivial = >=3 points and a non-constant y; "
         "distinct by canonical case.")
 ASSUMPTIONS = [
     "x is a 1-D tensor (SQuad rejects anything else); not-a-knot needs >=4 points, other splines >=3",
-    "tolerance: f64 1e-10*ratio^2*scale, f32 2e-3*ratio*scale (spline system solved in the case dtype)",
+    "tolerance at unit 1: f64 1e-10*ratio^2*scale, f32 2e-3*ratio*scale (spline system solved in the case dtype); scale=(max|y|+yunit)*(x[-1]-x[0])",
+    "tolerance at other units (cspline): 50*eps(dtype)*ratio*scale for natural/periodic (measured <= 0.95*eps*ratio on the unchanged tree over 6000 grids, "
+    "units 1e-8..1e6, both dtypes); clamped/not-a-knot: 50*eps*ratio^2*disparity*scale, disparity = ratio of the largest to the smallest row scale of "
+    "xitorch's slope system (KNOWN WEAKNESS, reported, not repaired: the boundary rows are not scaled like the interior rows, the unchanged tree is not "
+    "homogeneous in the unit of x for these two boundary conditions)",
+    "units other than 1 only with near offsets (|x0| <= 5 spacings scale) so that float32 keeps the knots apart",
     "simpson's cumulative value at an odd index uses the parabola through the last three points (the documented irregular composite rule)",
 ]
 LEVEL_TEXT = ("Differential exploration against NumPy/SciPy references and an independent parabola integrator over generated grids, "
@@ -67,6 +74,43 @@ def ref_cumsum(method, bc, xs, ys):
     raise ValueError(method)
 
 
+EPS = {"f64": 2.220446049250313e-16, "f32": 1.1920928955078125e-07}
+
+
+# D56 (repaired in /repo): the clamped / not-a-knot boundary rows of the slope system were not scaled like the interior rows, so the
+# accuracy depended on the unit of x (total loss in float32 at units 1e-8).  With the rows equilibrated no allowance is needed.
+ROWS_EQUILIBRATED = True      # D56 repaired in /repo; the reference is evaluated in a unit of about the mean spacing (see run_case)
+
+
+def row_disparity(method, bc, xs):
+    """ratio between the largest and the smallest row scale of the slope system xitorch solves (GEPP is only normwise stable):
+    interior / natural / periodic rows ~1/dx, the clamped rows are unit rows, the not-a-knot rows ~1/dx^2 -> 1 unless clamped/not-a-knot.
+    (KNOWN WEAKNESS of the unchanged tree, reported: the boundary rows are not brought to the scale of the interior rows, so the accuracy
+    of clamped / not-a-knot splines depends on the unit of x; the allowance below keeps the check quiet until that is repaired.)"""
+    if method != "cspline" or bc not in ("clamped", "not-a-knot") or ROWS_EQUILIBRATED:
+        return 1.0
+    d = np.diff(xs)
+    dmin, dmax = float(d.min()), float(d.max())
+    if bc == "clamped":
+        return max(1.0 / dmin, 1.0) * max(dmax, 1.0)
+    db = [float(v) for v in (d[0], d[1], d[-2], d[-1])]
+    return max([1.0] + [b * b / dmin for b in db] + [dmax / (b * b) for b in db])
+
+
+def rel_tolerance(method, bc, dt, xs, ratio, unit):
+    """tolerance relative to scale=(max|y|+yunit)*(x[-1]-x[0]).  unit == 1 (the original domain): f64 (1e-10 + 100*pert)*ratio^2 with
+    pert = eps*|x|max/hmin the relative rounding of the spacings, f32 2e-3*ratio.  Other units (near offsets only): everything is
+    relative by construction; cspline: 50*eps*ratio for natural/periodic (measured on the unchanged tree over 6000 grids, both dtypes,
+    units 1e-8..1e6: <= 0.95*eps*ratio), 50*eps*ratio^2*row_disparity for clamped/not-a-knot (measured <= 1e-4 of that)."""
+    old = ((1e-10 + 100 * 2.3e-16 * float(np.abs(xs).max()) / float(np.diff(xs).min())) * ratio ** 2) if dt == "f64" else 2e-3 * ratio
+    if unit == 1.0 or method != "cspline":
+        return old
+    disp = row_disparity(method, bc, xs)
+    if bc not in ("clamped", "not-a-knot"):
+        return 50 * EPS[dt] * ratio
+    return 50 * EPS[dt] * ratio ** 2 * disp
+
+
 def run_case(case):
     from xitorch.integrate import SQuad
     torch.manual_seed(0)
@@ -74,7 +118,8 @@ def run_case(case):
     method, bc = case["method"], case["bc"]
     dtype = DT[case["dtype"]]
     incs = np.array(case["incs"])
-    xs = (np.concatenate([[0.0], np.cumsum(incs)]) * case["xscale"] + case["x0"])
+    unit = float(case.get("unit", 1.0))          # the same grid expressed in other units of x
+    xs = (np.concatenate([[0.0], np.cumsum(incs)]) * case["xscale"] + case["x0"]) * unit
     n = len(xs)
     ratio = float(incs.max() / incs.min())
     x_t = torch.tensor(xs, dtype=dtype)
@@ -83,29 +128,48 @@ def run_case(case):
     pos = case["pos"] % (len(shape) + 1)
     shape.insert(pos, n)
     dim = pos if case["posdim"] else pos - len(shape)
-    y_t = torch.randn(shape, generator=g, dtype=torch.float64).to(dtype)
+    yunit = float(case.get("yunit", 1.0))
+    y_t = (torch.randn(shape, generator=g, dtype=torch.float64) * yunit).to(dtype)
     if case["yconst"]:
-        y_t = torch.ones_like(y_t) * 1.5
+        y_t = torch.ones_like(y_t) * 1.5 * yunit
     if method == "cspline" and bc == "periodic":
         idx = [slice(None)] * len(shape)
         first = list(idx); first[pos] = 0
         last = list(idx); last[pos] = n - 1
         y_t[tuple(last)] = y_t[tuple(first)]
     ys = np.moveaxis(y_t.double().numpy(), pos, -1)
-    kw = {"method": method}
-    if method == "cspline":
+    # documented defaults spelled explicitly / as None / left out: method None or omitted == "cspline", bc_type omitted == "natural"
+    kw = {}
+    msp = case.get("mspell", "explicit") if method == "cspline" else "explicit"
+    bsp = case.get("bcspell", "explicit") if (method == "cspline" and bc == "natural") else "explicit"
+    if msp == "explicit":
+        kw["method"] = method
+    elif msp == "none":
+        kw["method"] = None
+    if method == "cspline" and bsp == "explicit":
         kw["bc_type"] = bc
     labels = ["method=" + method, "bc=" + (bc if method == "cspline" else "-"), "n=" + ("2" if n == 2 else "odd" if n % 2 else "even"),
               "rank=%d" % len(shape), "dim=%s" % ("last" if pos == len(shape) - 1 else "inner"), "dimsign=" + ("pos" if case["posdim"] else "neg"),
               "dtype=" + case["dtype"], "rel=" + case["rel"], "offset=" + ("far" if abs(case["x0"]) >= 1e4 else "near"),
-              "units=" + ("tiny" if case["xscale"] < 1e-6 else "normal")]
+              "units=" + ("tiny" if case["xscale"] < 1e-6 else "normal"), "xunit=%g" % unit,
+              "yunit=%g" % float(case.get("yunit", 1.0)), "spelling=" + ("explicit" if (msp, bsp) == ("explicit", "explicit") else "method-%s/bc-%s" % (msp, bsp))]
     sq = xt_call(SQuad, x_t, _where="construct", **kw)
-    scale = float(np.abs(ys).max() + 1.0) * float(xs_eff[-1] - xs_eff[0])
+    scale = float(np.abs(ys).max() + yunit) * float(xs_eff[-1] - xs_eff[0])
     # positions are exact inputs (the reference uses the same rounded values); the spacing differences x[i+1]-x[i] carry a relative
     # rounding of at most eps*|x|max/hmin, amplified like every other perturbation of the spline system by ratio^2
-    pert = 2.3e-16 * float(np.abs(xs_eff).max()) / float(np.diff(xs_eff).min())
-    tol = ((1e-10 + 100 * pert) * ratio ** 2 if dtype == torch.float64 else 2e-3 * ratio) * scale
-    ref = np.moveaxis(ref_cumsum(method, bc, xs_eff, ys), -1, pos)      # back to y's layout
+    tolrel = rel_tolerance(method, bc, case["dtype"], xs_eff, ratio, unit)
+    tol = tolrel * scale
+    if row_disparity(method, bc, xs_eff) * EPS[case["dtype"]] * ratio ** 2 > 1e-3 and unit != 1.0:
+        labels.append("rowscale=allowance>1e-3")
+    if unit != 1.0 and ROWS_EQUILIBRATED:
+        # the reference is evaluated on the SAME grid expressed in a unit of about its mean spacing (division by a power of two is
+        # exact, and the running integral is homogeneous of degree 1 in the unit of x): SciPy's own slope system has unit boundary
+        # rows next to rows ~dx and loses accuracy in other units (1e-13 relative at unit 1e6, measured against exact rational
+        # arithmetic, where xitorch has 2e-16)
+        s2 = 2.0 ** round(float(np.log2(np.diff(xs_eff).mean())))
+        ref = np.moveaxis(ref_cumsum(method, bc, xs_eff / s2, ys) * s2, -1, pos)
+    else:
+        ref = np.moveaxis(ref_cumsum(method, bc, xs_eff, ys), -1, pos)      # back to y's layout
     rel = case["rel"]
     nontrivial = n >= 3 and not case["yconst"]
 
@@ -152,8 +216,21 @@ def run_case(case):
         lastcs = np.take(csn, [n - 1], axis=pos) if keepdim else np.take(csn, n - 1, axis=pos)
         if np.abs(it.double().numpy() - lastcs).max() > (1e-12 if dtype == torch.float64 else 1e-4) * scale * ratio:
             return violation("last_vs_integrate", "last cumsum entry and integrate differ by %.2e" % np.abs(it.double().numpy() - lastcs).max(), labels)
+    if rel == "units":
+        # homogeneity in the unit of x: the same samples on the grid 2^k x (exact rescaling) integrate to 2^k times the result
+        k = case["pow2x"] if unit < 1.0 else -case["pow2x"]
+        x2 = x_t * (2.0 ** k)
+        sq2 = xt_call(SQuad, x2, _where="construct-rescaled", **kw)
+        cs2 = xt_call(lambda: sq2.cumsum(y_t) if (dim == -1 and case["omit_dim"]) else sq2.cumsum(y_t, dim=dim), _where="cumsum-rescaled")
+        tol2 = (tolrel + rel_tolerance(method, bc, case["dtype"], x2.double().numpy(), ratio, unit * 2.0 ** k)) * scale
+        d = np.abs(cs2.double().numpy() / 2.0 ** k - csn)
+        if d.max() > tol2:
+            i = np.unravel_index(np.argmax(d), d.shape)
+            return violation("units", "cumsum on the grid 2^%d*x is not 2^%d times cumsum on x: entry %s is %r vs %r after rescaling back "
+                             "(diff %.2e, tol %.2e; spacing %.3g..%.3g)" % (k, k, list(i), csn[i], cs2.double().numpy()[i] / 2.0 ** k, d.max(), tol2,
+                                                                            np.diff(xs_eff).min(), np.diff(xs_eff).max()), labels)
     if rel == "linear":
-        y2 = torch.randn(shape, generator=g, dtype=torch.float64).to(dtype)
+        y2 = (torch.randn(shape, generator=g, dtype=torch.float64) * yunit).to(dtype)
         if method == "cspline" and bc == "periodic":
             return ok(labels, nontrivial)
         a, b = 2.0, -0.5
@@ -181,10 +258,15 @@ def case_st(draw, tier="quick"):
     xscale = draw(st.sampled_from([1.0, 0.01, 30.0] + ([1e-8] if dtype == "f64" and x0 in (0.0, -5.0, 2.5) else [])))
     if xscale == 1e-8:
         x0 = x0 * 1e-8
-    return {"method": method, "bc": bc, "incs": incs, "xscale": xscale,
+    # the same grid in other units of x (both dtypes; near offsets, so that float32 keeps the knots apart), y in other units
+    near = x0 in (0.0, -5.0, 2.5) and xscale in (1.0, 0.01, 30.0)
+    unit = draw(st.sampled_from([1.0, 1.0, 1.0, 1e-8, 1e-4, 1e3, 1e5, 1e6])) if near else 1.0
+    return {"method": method, "bc": bc, "incs": incs, "xscale": xscale, "unit": unit, "yunit": draw(st.sampled_from([1.0, 1.0, 1e-5, 1e3])),
+            "pow2x": draw(st.sampled_from([10, 20])),
+            "mspell": draw(st.sampled_from(["explicit", "explicit", "none", "omitted"])), "bcspell": draw(st.sampled_from(["explicit", "omitted"])),
             "x0": x0, "other": other, "pos": draw(st.integers(0, 3)),
             "posdim": draw(st.booleans()), "omit_dim": draw(st.booleans()), "dtype": dtype,
-            "rel": draw(st.sampled_from(["value", "value", "linear", "reject"])), "bad": draw(st.sampled_from([1, -1, 2, -2])),
+            "rel": draw(st.sampled_from(["value", "value", "linear", "reject", "units"])), "bad": draw(st.sampled_from([1, -1, 2, -2])),
             "yconst": draw(st.sampled_from([False, False, False, True])), "seed": draw(st.integers(0, 2 ** 31 - 1))}
 
 
